@@ -4,7 +4,7 @@
 P=$1; PATCH=$2; shift 2
 IDS=${@:-$P}
 WT=/tmp/wt/$P
-git -C $WT checkout -q -- . || exit 9
+git -C $WT reset -q --hard; git -C $WT checkout -q -f --detach $(git -C /repo rev-parse HEAD) || exit 9
 git -C $WT apply $PATCH || { echo "patch does not apply"; exit 9; }
 for id in $IDS; do
   NSS_REPO=$WT /verif/check $id 2>&1 | grep -v conda | grep -E "VIOLATION|KNOWN|UNDECIDED|CHECKER|SELF-CHECK|obligations discharged|obligation " | cut -c1-260
